@@ -225,6 +225,77 @@ theorem ind01 (n i : Nat) : ind n i = 0 ∨ ind n i = 1 := by
 
 theorem kuhn3_zero (b c d e f g h : Int) : kuhn3 0 b c d e f g h = 0 := by simp [kuhn3]
 
+theorem sumN_ind_succ (n m : Nat) : sumN m (fun i => ind n (i + 1)) = ((min m (n - 1) : Nat) : Int) := by
+  induction m with
+  | zero => simp [sumN]
+  | succ m ih =>
+      have e : sumN (m + 1) (fun i => ind n (i + 1))
+          = sumN m (fun i => ind n (i + 1)) + ind n (m + 1) := rfl
+      rw [e, ih]
+      unfold ind
+      split_ifs with h
+      · have : min (m + 1) (n - 1) = min m (n - 1) + 1 := by omega
+        rw [this]; push_cast; ring
+      · have : min (m + 1) (n - 1) = min m (n - 1) := by omega
+        rw [this]; simp
+
+/-! ### HISTORICAL (not the current code): the `EC2d` defect fixed in /repo commit 1b1bfa7
+
+Before the fix the triangle loop of `EC2d` read `if m and v0:` and so skipped
+every triangle whose first vertex has flat index 0.  The definitions below model
+that *old* text only to document what the defect was; no property theorem about
+the current code refers to them. -/
+
+def contribSkip0 (tbl : List (List Pt)) (M : Field) (x : Pt) : Int :=
+  (tbl.map (fun s => match s with
+    | [] => 1
+    | v :: _ => if padd x v = (0, 0, 0) then 0 else prodAt M x s)).sum
+
+def voxelEC2Historical (M : Field) (x : Pt) : Int :=
+  fat M x (0, 0, 0) - contrib (table 2 2) M x + contribSkip0 (table 2 3) M x
+
+def ec2Historical (n0 n1 : Nat) (M : Field) : Int :=
+  sum3 n0 n1 1 (fun i j k => voxelEC2Historical M (i, j, k))
+
+/-- historical defect, exactly: the old `EC2d` was too small by the number of
+    triangles of the origin cell that are present. -/
+theorem ec2Historical_defect (n0 n1 : Nat) (M : Field) (h0 : 1 ≤ n0) (h1 : 1 ≤ n1) :
+    ec2Historical n0 n1 M = ec2 n0 n1 M - (M 0 0 0 * M 1 0 0 * M 1 1 0 + M 0 0 0 * M 0 1 0 * M 1 1 0) := by
+  obtain ⟨a, rfl⟩ : ∃ a, n0 = a + 1 := ⟨n0 - 1, by omega⟩
+  obtain ⟨b, rfl⟩ : ∃ b, n1 = b + 1 := ⟨n1 - 1, by omega⟩
+  have key : ∀ i j, voxelEC2Historical M (i, j, 0) = voxelEC 2 M (i, j, 0)
+      - (if i = 0 ∧ j = 0 then M 0 0 0 * M 1 0 0 * M 1 1 0 + M 0 0 0 * M 0 1 0 * M 1 1 0 else 0) := by
+    intro i j
+    simp only [voxelEC2Historical, voxelEC, contrib, contribSkip0, table_2_2, table_2_3, table_2_4, List.map,
+      List.sum_cons, List.sum_nil, prodAt, fat, Nat.add_zero, padd, Prod.mk.injEq, and_true]
+    by_cases h : i = 0 ∧ j = 0
+    · obtain ⟨rfl, rfl⟩ := h; simp; ring
+    · simp only [h, if_false]; ring
+  unfold ec2Historical ec2 sum3
+  simp only [sumN_one, key]
+  -- split off the (0,0) voxel
+  have split : ∀ (n : Nat) (f : Nat → Int) (c : Int),
+      sumN (n + 1) (fun i => f i - (if i = 0 then c else 0)) = sumN (n + 1) f - c := by
+    intro n f c
+    induction n with
+    | zero => simp [sumN]
+    | succ n ih =>
+        have e1 : sumN (n + 1 + 1) (fun i => f i - (if i = 0 then c else 0))
+            = sumN (n + 1) (fun i => f i - (if i = 0 then c else 0))
+              + (f (n + 1) - (if n + 1 = 0 then c else 0)) := rfl
+        have e2 : sumN (n + 1 + 1) f = sumN (n + 1) f + f (n + 1) := rfl
+        rw [e1, e2, ih, if_neg (Nat.succ_ne_zero n)]; ring
+  have inner : ∀ i, sumN (b + 1) (fun j => voxelEC 2 M (i, j, 0)
+      - (if i = 0 ∧ j = 0 then M 0 0 0 * M 1 0 0 * M 1 1 0 + M 0 0 0 * M 0 1 0 * M 1 1 0 else 0))
+      = sumN (b + 1) (fun j => voxelEC 2 M (i, j, 0))
+        - (if i = 0 then M 0 0 0 * M 1 0 0 * M 1 1 0 + M 0 0 0 * M 0 1 0 * M 1 1 0 else 0) := by
+    intro i
+    by_cases hi : i = 0
+    · subst hi; simp only [true_and, if_true]; exact split b _ _
+    · simp only [hi, false_and, if_false, sub_zero]
+  simp only [inner]
+  exact split a _ _
+
 /-! ### polynomial evaluation -/
 
 theorem peval_nil (x : Rat) : peval [] x = 0 := rfl
